@@ -44,7 +44,7 @@ REQUIRED = ('decisions_checked', 'terminal_states_checked',
             'forks')
 
 CUSTOMS = ('kuhn', 'draw5', 'stud5', 'greek', 'courchevel', 'holdem8',
-           'plo8', 'badugi1', 'razzdraw', 'random', 'openstud')
+           'plo8', 'badugi1', 'razzdraw', 'random', 'openstud', 'drawboard')
 
 # allowed successor phases (loose automaton; see DESIGN C07)
 NEXT = {
